@@ -155,6 +155,31 @@ func engineDirected() []namedScen {
 		),
 		Trigger: d.Manual("A", nil),
 	})
+	// a node that enters a flow and then fails on a second (missing) enter_flow, at the top and under ancestors
+	add("enter-then-missing-enter-one-node", &gen.Scenario{
+		Assets: d.BaseAssets(
+			d.Flow("A", "messaging", d.Node("a1", []any{d.Enter("a1e1", "B", false), d.Enter("a1e2", "Gone", false)}, nil, d.Exit("a1x", "a2")), d.Node("a2", []any{d.SendMsg("a2m", "after")}, nil, d.Exit("a2x", ""))),
+			d.Flow("B", "messaging", d.Node("b1", []any{d.SendMsg("b1m", "B")}, nil, d.Exit("b1x", ""))),
+		),
+		Trigger: d.Manual("A", nil),
+	})
+	add("enter-then-missing-enter-under-grandparent", &gen.Scenario{
+		Assets: d.BaseAssets(
+			d.Flow("G", "messaging", d.Node("g1", []any{d.Enter("g1e", "A", false)}, nil, d.Exit("g1x", "g2")), d.Node("g2", []any{d.SendMsg("g2m", "back in G")}, nil, d.Exit("g2x", ""))),
+			d.Flow("A", "messaging", d.Node("a1", []any{d.Enter("a1e1", "B", false), d.Enter("a1e2", "Gone", false)}, nil, d.Exit("a1x", "a2")), d.Node("a2", []any{d.SendMsg("a2m", "after")}, nil, d.Exit("a2x", ""))),
+			d.Flow("B", "messaging", d.WaitNode("b1", "b2", nil), d.Node("b2", []any{d.SendMsg("b2m", "B done")}, nil, d.Exit("b2x", ""))),
+		),
+		Trigger: d.Manual("G", nil), Resumes: []gen.M{d.MsgResume(0, "hi"), d.MsgResume(1, "again")},
+	})
+	add("enter-then-type-mismatch-enter-under-grandparent", &gen.Scenario{
+		Assets: d.BaseAssets(
+			d.Flow("G", "messaging", d.Node("g1", []any{d.Enter("g1e", "A", false)}, nil, d.Exit("g1x", ""))),
+			d.Flow("A", "messaging", d.Node("a1", []any{d.Enter("a1e1", "B", false), d.Enter("a1e2", "V", false), d.SendMsg("a1m", "x")}, nil, d.Exit("a1x", ""))),
+			d.Flow("B", "messaging", d.Node("b1", []any{d.SendMsg("b1m", "B")}, nil, d.Exit("b1x", ""))),
+			d.Flow("V", "voice", d.Node("v1", nil, nil, d.Exit("v1x", ""))),
+		),
+		Trigger: d.Manual("G", nil),
+	})
 	// resume limits
 	for _, mr := range []int{0, 1, 2} {
 		o := opts(100)
